@@ -139,7 +139,7 @@ def cacheSpec (c : CacheCase) (o : CacheObs) : Bool :=
   (c.defs.zip o.files).all (fun p => (c.defs.zip o.files).all (fun q =>
       p.1.refused || q.1.refused || p.1.script == q.1.script || p.2 != q.2)) &&
   -- what was cached before is still cached
-  (c.pre.all (fun p => entryOf o.entries (candidate (uniqueFilename "methods" c.modul p.1) p.2.1) == some p.2.2)) &&
+  (c.pre.all (fun p => entryOf o.entries (candidate (uniqueFilename c.funcName c.modul p.1) p.2.1) == some p.2.2)) &&
   -- the cached text is the code that runs, for every class, and later definitions leave it alone
   o.sourceOk.all id && o.sourceOk.length == c.defs.length &&
   o.stable.all id
@@ -157,8 +157,18 @@ def agreeB (c : CacheCase) (m o : CacheObs) : Bool :=
     -- an interleaving the interpreter would not take: only the schedule-independent part is compared
     m.sourceOk == o.sourceOk && m.stable == o.stable && m.files.length == o.files.length
 
-def cacheCheck : Check CacheCase CacheObs :=
-  { model := cacheModel, spec := cacheSpec, wf := cacheWf, known := cacheKnown }
+/-- both scripts of every definition obey the same specification -/
+def histSpec (c : CacheCase) (o : HistObs) : Bool :=
+  cacheSpec c o.main && cacheSpec (gcase c) (o.sub c)
+
+/-- the `getattr` filenames are predicted for sequential histories only: in a concurrent run only the
+    operations on the `methods` files are scheduled -/
+def histAgree (sequential : Bool) (c : CacheCase) (m o : HistObs) : Bool :=
+  agreeB c m.main o.main &&
+  (!sequential || !o.realised || agreeB (gcase c) (m.sub c) (o.sub c))
+
+def cacheCheck : Check CacheCase HistObs :=
+  { model := histModel, spec := histSpec, wf := cacheWf, known := cacheKnown }
 
 /-! ## protocol -/
 
@@ -172,9 +182,9 @@ def handle (case obs : Json) : Except String Reply := do
            known := known c, model := toJson m }
   else
     let c ← fromJson? (α := CacheCase) case
-    let o ← fromJson? (α := CacheObs) obs
-    let m := cacheModel c
-    pure { agree := agreeB c m o, specModel := cacheSpec c m, specObs := cacheSpec c o, wf := cacheWf c,
+    let o ← fromJson? (α := HistObs) obs
+    let m := histModel c
+    pure { agree := histAgree (kind == "hist") c m o, specModel := histSpec c m, specObs := histSpec c o, wf := cacheWf c,
            known := cacheKnown c, model := toJson m }
 
 end Attrs.C17
